@@ -579,3 +579,113 @@ Proof.
     intros m Hm K. apply (NoDup_app_disj _ _ _ C2a (Hmem _ K)). apply in_or_app. right.
     unfold part_xids. apply in_flat_map. exists q. split; [exact Hq|exact Hm].
 Qed.
+
+(* ======================================================================================================
+   Part C: the writer's merged table after the last part, for EVERY number: what a part currently defines (its top-level objects,
+   its cross-reference stream, the members of its object streams: [defs]) keeps the entry that part wrote, whatever follows;
+   a superseded definition is overridden by the part that holds the current one.  Hypothesis: the parts define disjoint sets
+   (NoDup (flat_map defs parts)): ref_write_multi checks it for the top-level objects; for members and cross-reference streams
+   it follows from its other checks once a part's mp_nums names top-level objects only.
+   ====================================================================================================== *)
+Section KnownAll.
+  Variable st : fstyle.
+  Variable a : adoc.
+  Variable tops : list top.
+
+  Definition defs (p : mpart) : list N := mp_nums p ++ g_xid p ++ flat_map os_members (g_conts st p).
+
+  Lemma find_off_some : forall offs n g q, find_off offs n = Some (g, q) -> In n (map (fun t : N * N * N => fst (fst t)) offs).
+  Proof.
+    induction offs as [|[[i g0] q0] offs IH]; intros n g q H; [discriminate H|]. cbn [find_off] in H. cbn [map fst].
+    destruct (i =? n) eqn:E; [apply N.eqb_eq in E; left; exact E|right; apply (IH n g q H)].
+  Qed.
+
+  (* what a part lists as its own is something it defines, or a superseded definition of something a later part defines *)
+  Lemma here_defs p rest pos n :
+    forallb (fun no => mem_N (fst no) (flat_map (part_defines st) rest)) (mp_old p) = true ->
+    g_here st a tops p pos n = true ->
+    (In n (g_hnums st a tops p ++ g_xid p ++ flat_map os_members (g_conts st p))) /\ In n (flat_map defs (p :: rest)).
+  Proof.
+    intros Hold H. unfold g_here, g_ehere in H. cbn [flat_map].
+    destruct (find_off (g_offs st a tops p pos) n) as [[g q]|] eqn:Ef.
+    - apply find_off_some in Ef. unfold g_offs in Ef. rewrite map_app, offs_of_nums, map_map in Ef. cbn [fst] in Ef. rewrite map_id in Ef.
+      apply in_app_or in Ef as [Ef|Ef].
+      + apply in_map_iff in Ef as [t [K1 K2]]. unfold g_otops in K2. apply ordered_In in K2.
+        split; [apply in_or_app; left; unfold g_hnums; apply in_map_iff; exists t; split; assumption|].
+        unfold g_mine in K2. apply in_app_or in K2 as [K2|K2].
+        * apply filter_In in K2 as [_ K2]. apply mem_N_In' in K2. rewrite K1 in K2. apply in_or_app. left. unfold defs. apply in_or_app. left. exact K2.
+        * unfold g_olds in K2. apply in_flat_map in K2 as [no [K3 K4]]. destruct (find_obj (a_objs a) (fst no)) as [[g1 o]|]; [|contradiction].
+          destruct K4 as [<-|[]]. cbn [fst] in K1.
+          pose proof (proj1 (forallb_forall _ _) Hold no K3) as K5. apply mem_N_In' in K5. rewrite K1 in K5.
+          apply in_or_app. right. apply in_flat_map in K5 as [q0 [K6 K7]]. apply in_flat_map. exists q0. split; [exact K6|].
+          unfold part_defines in K7. unfold defs. apply in_app_or in K7 as [K7|K7]; apply in_or_app; [left; exact K7|right; apply in_or_app; right; exact K7].
+      + split; [apply in_or_app; right; apply in_or_app; left; exact Ef|]. apply in_or_app. left. unfold defs. apply in_or_app. right. apply in_or_app. left. exact Ef.
+    - destruct (find_comp (g_conts st p) n) as [[c k]|] eqn:Ec; [|discriminate H]. apply find_comp_In in Ec as [s [K1 K2]].
+      assert (K : In n (flat_map os_members (g_conts st p))) by (apply in_flat_map; exists s; split; assumption).
+      split; [apply in_or_app; right; apply in_or_app; right; exact K|]. apply in_or_app. left. unfold defs. apply in_or_app. right. apply in_or_app. right. exact K.
+  Qed.
+
+  Lemma write_parts_tail p rest pos prev known maxnum r :
+    write_parts st a tops (p :: rest) pos prev known maxnum = Some r ->
+    forallb (fun no => mem_N (fst no) (flat_map (part_defines st) rest)) (mp_old p) = true /\
+    exists r', write_parts st a tops rest (pos + N.of_nat (length (g_text st a tops p (g_last rest) pos prev known maxnum)))
+                 (Some (g_xpos st a tops p pos)) (g_known st a tops p pos known maxnum) (g_size st a tops p maxnum - 1) = Some r'.
+  Proof.
+    intro Hw. rewrite write_parts_step_os in Hw.
+    match type of Hw with (if ?c then _ else _) = _ => destruct c eqn:C1 end; [discriminate Hw|].
+    apply negb_false_iff in C1. apply andb_true_iff in C1 as [C1 _]. apply andb_true_iff in C1 as [_ C1]. split; [exact C1|].
+    destruct (mp_xref p); [destruct (g_conts st p); [|discriminate Hw]|];
+      (match type of Hw with (if ?c then _ else _) = _ => destruct c end; [discriminate Hw|]);
+      (match type of Hw with match ?w with Some _ => _ | None => _ end = _ => destruct w as [r'|] end; [exists r'; reflexivity|discriminate Hw]).
+  Qed.
+
+  (* a number no remaining part defines keeps its entry *)
+  Lemma final_known_untouched : forall parts pos prev known maxnum r,
+    write_parts st a tops parts pos prev known maxnum = Some r ->
+    forall n, ~ In n (flat_map defs parts) -> lookup_entry (final_known st a tops parts pos prev known maxnum) n = lookup_entry known n.
+  Proof.
+    induction parts as [|p rest IH]; intros pos prev known maxnum r Hw n Hn; [reflexivity|]. cbn [final_known].
+    destruct (write_parts_tail p rest pos prev known maxnum r Hw) as [Hold [r' Hw']].
+    rewrite (IH _ _ _ _ r' Hw' n (fun K => Hn (in_or_app _ _ _ (or_intror K)))).
+    unfold g_known. rewrite lookup_entry_map'.
+    destruct (mem_N n (filter (g_here st a tops p pos) (range_N 0 (N.to_nat (g_size st a tops p maxnum))))) eqn:Em; [exfalso|reflexivity].
+    apply mem_N_In' in Em. apply filter_In in Em as [_ Em]. apply Hn. apply (proj2 (here_defs p rest pos n Hold Em)).
+  Qed.
+
+  (* THE CURRENT DEFINITIONS: what part [p] lists as its own and no later part defines keeps the entry [p] wrote *)
+  Theorem known_keeps_current p rest pos prev known maxnum r n :
+    write_parts st a tops (p :: rest) pos prev known maxnum = Some r ->
+    g_here st a tops p pos n = true -> ~ In n (flat_map defs rest) ->
+    lookup_entry (final_known st a tops (p :: rest) pos prev known maxnum) n = Some (g_ehere st a tops p pos n).
+  Proof.
+    intros Hw Hh Hn. cbn [final_known]. destruct (write_parts_tail p rest pos prev known maxnum r Hw) as [Hold [r' Hw']].
+    rewrite (final_known_untouched rest _ _ _ _ r' Hw' n Hn). unfold g_known. rewrite lookup_entry_map'.
+    replace (mem_N n (filter (g_here st a tops p pos) (range_N 0 (N.to_nat (g_size st a tops p maxnum))))) with true.
+    - unfold g_entry. rewrite Hh. reflexivity.
+    - symmetry. apply mem_N_In'. apply filter_In. split; [|exact Hh]. apply range_N_In. rewrite N2Nat.id. split; [lia|].
+      destruct (here_defs p rest pos n Hold Hh) as [K _]. unfold g_size.
+      assert (n <= max_num (g_hnums st a tops p ++ g_xid p ++ flat_map os_members (g_conts st p))) by (unfold max_num; apply fold_max_ge; exact K).
+      lia.
+  Qed.
+
+  (* with disjoint [defs]: every number a part DEFINES keeps the entry that part wrote -- in particular a superseded definition
+     (listed by an earlier part) is not the one the final table names *)
+  Theorem known_current : forall parts pos prev known maxnum r,
+    write_parts st a tops parts pos prev known maxnum = Some r -> NoDup (flat_map defs parts) ->
+    forall pre p post n, parts = pre ++ p :: post -> In n (defs p) ->
+    exists pos' prev' known' maxnum',
+      lookup_entry (final_known st a tops parts pos prev known maxnum) n =
+      lookup_entry (final_known st a tops (p :: post) pos' prev' known' maxnum') n /\
+      (g_here st a tops p pos' n = true ->
+       lookup_entry (final_known st a tops parts pos prev known maxnum) n = Some (g_ehere st a tops p pos' n)).
+  Proof.
+    intros parts pos prev known maxnum r Hw Hnd pre. revert parts pos prev known maxnum r Hw Hnd.
+    induction pre as [|p0 pre IH]; intros parts pos prev known maxnum r Hw Hnd p post n -> Hn.
+    - exists pos, prev, known, maxnum. split; [reflexivity|]. intro Hh. cbn [app] in *.
+      apply (known_keeps_current p post pos prev known maxnum r n Hw Hh). cbn [flat_map] in Hnd.
+      intro K. apply (NoDup_app_disj _ _ n Hnd Hn K).
+    - cbn [app] in *. destruct (write_parts_tail p0 (pre ++ p :: post) pos prev known maxnum r Hw) as [_ [r' Hw']].
+      cbn [flat_map] in Hnd. destruct (IH _ _ _ _ _ r' Hw' (NoDup_app_r' _ _ Hnd) p post n eq_refl Hn) as [pos' [prev' [known' [maxnum' [E1 E2]]]]].
+      exists pos', prev', known', maxnum'. cbn [final_known]. split; [exact E1|exact E2].
+  Qed.
+End KnownAll.
